@@ -130,6 +130,22 @@ def shard(mon, tier, rng, shard_no, nshards):
         if K > 3:
             mon.count("Kgtm_cones")
         check_cone(mon, f"icecream{th:g}-K{K}", gen.make_order("icecream", theta=th, K=K), rng, "icecream")
+    # the caller re-uses the matrix it built the cone from (a sweep of cones from one scratch matrix)
+    from vopy.order import PolyhedralConeOrder
+    from vopy.ordering_cone import OrderingCone
+
+    for j in range(2):
+        m = int(rng.choice([2, 3]))
+        scratch = G.random_cone(rng, m, m + 1)
+        first = scratch.copy()
+        order = PolyhedralConeOrder(OrderingCone(scratch))
+        scratch[...] = G.random_cone(rng, m, m + 1)  # refilled for the next cone of the sweep
+        mon.count("scratch_matrix_cones")
+        if not np.array_equal(np.asarray(order.ordering_cone.W), first):
+            mon.violation("cone:matrix-aliases-caller-array", "the cone's matrix changed when the caller refilled the array it was built from "
+                          "(alpha was computed for the old matrix)", {"W_first": first, "W_now": order.ordering_cone.W})
+        else:
+            check_cone(mon, f"scratch{m + 1}x{m}", order, rng, f"random{m}d")
     for j in range(10 if tier == "quick" else 600):
         m = int(rng.choice([2, 3, 4]))
         K = m + int(rng.integers(0, 5))
